@@ -99,6 +99,26 @@ async fn case(addr: SocketAddr, certs: &Certs, kind: &str, outages: usize, attem
                 });
             }
         }
+        "closing" => {
+            // close() called while the wrapper is re-establishing the stream: it must complete (the server is reachable)
+            let topic = format!("/verif/rec{n}");
+            let mut publ = flaky.publisher(&topic).with_encoder(StringCodec).open().await?;
+            publ.send("before".into()).await?;
+            for _ in 0..outages {
+                flaky.verif_close_connection().await;
+                // one poll of a send notices the loss (the future is dropped while the reconnection is under way)
+                let _ = tokio::time::timeout(Duration::from_millis(5), publ.send("noticed".into())).await;
+                let h = tokio::spawn(async move { let r = publ.close().await; (publ, r.is_ok()) });
+                match tokio::time::timeout(Duration::from_secs(5), h).await {
+                    Err(_) => { out.push("hang".to_string()); break; }
+                    Ok(Err(_)) => { out.push("panic".to_string()); break; }
+                    Ok(Ok((p, _))) => { out.push("ok".to_string()); publ = p; }
+                }
+                // a closed publisher is not used again: open a new one for the next round
+                publ = flaky.publisher(&topic).with_encoder(StringCodec).open().await?;
+                publ.send("again".into()).await?;
+            }
+        }
         "replier" => {
             let topic = format!("/verif/recr{n}");
             let f2 = flaky.clone();
@@ -312,6 +332,7 @@ pub fn run(cfg: &Cfg) {
         cases.push("rec displaced 0".into());
         cases.push("rec takeover 40".into());
         cases.push("rec subone 3 2".into());
+        cases.push("rec closing 2 3".into());
         cases.push("rec quiet 3 1".into());
         cases.push("rec quiet 5 2".into());
         cases.push("rec exhaust sub 0".into());
